@@ -274,7 +274,7 @@ Proof.
               linked [1; 0; 1; 1; 1; 1] None a b = true ->
               clos_refl_trans Z (linkedP [1; 0; 1; 1; 1; 1] None false 3 2) a b).
   { intros a b H1 H2 H3. apply rt_step. unfold linkedP. auto. }
-  split; [|split; [reflexivity|]].
+  split; [|split; [vm_compute; reflexivity|]].
   - apply rt_trans with 3; [apply S; [lia|cbn; auto|reflexivity]|].
     apply rt_trans with 4; [apply S; [lia|cbn; auto|reflexivity]|].
     apply rt_trans with 5; [apply S; [lia|cbn; auto|reflexivity]|].
@@ -282,7 +282,8 @@ Proof.
   - intros Hp.
     destruct (C15_regions_are_components [1; 0; 1; 1; 1; 1] None false 3 2 ltac:(lia) ltac:(lia) ltac:(reflexivity))
       as (regions & Hr & Hiff).
-    injection Hr as <-. apply (Hiff 0 1) in Hp; try reflexivity; try lia. discriminate Hp.
+    assert (E : calculate_regions [1; 0; 1; 1; 1; 1] None false 3 2 = Some [1; 2; 1; 1; 1; 1]) by (vm_compute; reflexivity).
+    rewrite E in Hr. injection Hr as <-. apply (Hiff 0 1) in Hp; try reflexivity; try lia. discriminate Hp.
 Qed.
 
 (* non-vacuity: the exterior start (pixel 0) and the hole start (pixel 1, below the hole) of the 3x3 ring satisfy the
